@@ -317,7 +317,7 @@ class Case:
         # events that fall due inside the failure window (control frames interleaved in a compressed text message
         # after the frame in which the inflated text became invalid): delivered or not, depending on whether the
         # receiver had already noticed - mandatory are those due up to the earliest decidable offset
-        nmand = len(exp) if tl.failure is None else sum(1 for (d, _) in tl.events if d <= min(k, tl.failure.earliest))
+        nmand = len(exp) if tl.failure is None else min(len(exp), sum(1 for (d, _) in tl.events if d <= min(k, tl.failure.earliest)))
         f = obs.failure()
         close_due = tl.close is not None and tl.close[0] <= k
         if close_due:
